@@ -2,6 +2,7 @@ package main
 
 import (
 	"fmt"
+	"go/ast"
 	"go/constant"
 	"go/token"
 	"go/types"
@@ -248,32 +249,50 @@ func loadTables(p *Prog, kind string) *codecTables {
 		factories = []*ssa.Function{p.Func("entropy", "NewEntropyEncoder"), p.Func("entropy", "NewEntropyDecoder")}
 	}
 	t := extractSwitch(ct.n2cFn)
-	if t == nil {
-		undecided("no constant switch in %s", ct.n2cFn)
-	}
-	ct.upper = derivesFromUpper(t.tag, 0)
-	for _, c := range t.cases {
-		if c.key.Kind() != constant.String {
-			continue
+	if t != nil && len(t.cases) >= 5 {
+		ct.upper = derivesFromUpper(t.tag, 0)
+		for _, c := range t.cases {
+			if c.key.Kind() != constant.String {
+				continue
+			}
+			res := t.caseConstResult(c)
+			if res == nil {
+				undecided("%s: case %s has no single constant result", ct.n2cFn, c.key)
+			}
+			ct.n2c[constant.StringVal(c.key)] = res.ExactString()
+			ct.n2cPos[constant.StringVal(c.key)] = c.pos
 		}
-		res := t.caseConstResult(c)
-		if res == nil {
-			undecided("%s: case %s has no single constant result", ct.n2cFn, c.key)
+	} else if mt := extractMapTable(p, ct.n2cFn); mt != nil {
+		// table-driven form: a lookup in a package-level map literal
+		ct.upper = derivesFromUpper(mt.index, 0)
+		for _, e := range mt.entries {
+			if e.key.Kind() == constant.String {
+				ct.n2c[constant.StringVal(e.key)] = e.val.ExactString()
+				ct.n2cPos[constant.StringVal(e.key)] = e.pos
+			}
 		}
-		ct.n2c[constant.StringVal(c.key)] = res.ExactString()
-		ct.n2cPos[constant.StringVal(c.key)] = c.pos
+	} else {
+		undecided("no constant switch or map-literal lookup in %s", ct.n2cFn)
 	}
 	t = extractSwitch(ct.c2nFn)
-	if t == nil {
-		undecided("no constant switch in %s", ct.c2nFn)
-	}
-	for _, c := range t.cases {
-		res := t.caseConstResult(c)
-		if res == nil || res.Kind() != constant.String {
-			undecided("%s: case %s has no single constant string result", ct.c2nFn, c.key)
+	if t != nil && len(t.cases) >= 5 {
+		for _, c := range t.cases {
+			res := t.caseConstResult(c)
+			if res == nil || res.Kind() != constant.String {
+				undecided("%s: case %s has no single constant string result", ct.c2nFn, c.key)
+			}
+			ct.c2n[c.key.ExactString()] = constant.StringVal(res)
+			ct.c2nPos[c.key.ExactString()] = c.pos
 		}
-		ct.c2n[c.key.ExactString()] = constant.StringVal(res)
-		ct.c2nPos[c.key.ExactString()] = c.pos
+	} else if mt := extractMapTable(p, ct.c2nFn); mt != nil {
+		for _, e := range mt.entries {
+			if e.val.Kind() == constant.String {
+				ct.c2n[e.key.ExactString()] = constant.StringVal(e.val)
+				ct.c2nPos[e.key.ExactString()] = e.pos
+			}
+		}
+	} else {
+		undecided("no constant switch or map-literal lookup in %s", ct.c2nFn)
 	}
 	for _, f := range factories {
 		t := extractSwitch(f)
@@ -453,4 +472,77 @@ func ruleLevels(p *Prog, r *RuleResult) {
 		}
 	}
 	r.floor(10, n, "compression levels 0..9")
+}
+
+type mapEntry struct {
+	key, val constant.Value
+	pos      token.Pos
+}
+
+type mapTable struct {
+	index   ssa.Value
+	entries []mapEntry
+}
+
+// extractMapTable: f looks a value up in a package-level map that is initialised by a literal of constant keys and
+// constant values; returns the literal's entries and the SSA value used as lookup key.
+func extractMapTable(p *Prog, f *ssa.Function) *mapTable {
+	var lk *ssa.Lookup
+	var g *ssa.Global
+	eachInstr(f, func(i ssa.Instruction) {
+		l, ok := i.(*ssa.Lookup)
+		if !ok {
+			return
+		}
+		if u, ok := l.X.(*ssa.UnOp); ok && u.Op == token.MUL {
+			if gg, ok := u.X.(*ssa.Global); ok {
+				if _, isMap := gg.Type().(*types.Pointer).Elem().Underlying().(*types.Map); isMap {
+					lk, g = l, gg
+				}
+			}
+		}
+	})
+	if lk == nil {
+		return nil
+	}
+	for _, pk := range p.Pkgs {
+		if pk.Types != g.Pkg.Pkg {
+			continue
+		}
+		for _, file := range pk.Syntax {
+			for _, d := range file.Decls {
+				gd, ok := d.(*ast.GenDecl)
+				if !ok || gd.Tok != token.VAR {
+					continue
+				}
+				for _, sp := range gd.Specs {
+					vs := sp.(*ast.ValueSpec)
+					for i, nm := range vs.Names {
+						if nm.Name != g.Name() || i >= len(vs.Values) {
+							continue
+						}
+						cl, ok := vs.Values[i].(*ast.CompositeLit)
+						if !ok {
+							return nil
+						}
+						mt := &mapTable{index: lk.Index}
+						for _, el := range cl.Elts {
+							kv, ok := el.(*ast.KeyValueExpr)
+							if !ok {
+								return nil
+							}
+							ktv, ok1 := pk.TypesInfo.Types[kv.Key]
+							vtv, ok2 := pk.TypesInfo.Types[kv.Value]
+							if !ok1 || !ok2 || ktv.Value == nil || vtv.Value == nil {
+								return nil
+							}
+							mt.entries = append(mt.entries, mapEntry{ktv.Value, vtv.Value, kv.Pos()})
+						}
+						return mt
+					}
+				}
+			}
+		}
+	}
+	return nil
 }
